@@ -25,7 +25,11 @@ Terms == {WithAl(t, "ala") : t \in BaseTerms} \cup {[k |-> "ext", cls |-> c, al 
 Positions == {"select-item", "select-two", "operand-arith", "operand-func", "operand-case-then", "operand-case-when", "operand-cmp-in-select",
               "where", "having", "groupby", "orderby", "join-on", "insert-value", "set-value",
               "groupby-ref", "orderby-ref", "groupby-other-alias", "subquery-select",
-              "operand-cmp-right-in-select", "operand-arith-right", "where-right", "having-right", "operand-func-second"}
+              "operand-cmp-right-in-select", "operand-arith-right", "where-right", "having-right", "operand-func-second",
+              \* the reference is made BEFORE the select list defines the alias, the select list is replaced by * afterwards, or the alias arrives late
+              "orderby-then-select", "groupby-then-select", "star-after-alias", "late-alias",
+              \* argument of an aggregate with the DISTINCT option, of an aggregate with a FILTER, of a window function
+              "operand-count-distinct", "operand-sum-distinct", "operand-window"}
 
 Sel(ts) == [m |-> "select", terms |-> ts]
 Outer(t) == WithAl(t, "alx")
@@ -53,6 +57,14 @@ Program(t, p) ==
       [] p = "set-value" -> << [m |-> "update", src |-> "T1"], [m |-> "set", col |-> "a", val |-> t] >>
       [] p = "groupby-ref" -> <<from, Sel(<<t>>), [m |-> "groupby", terms |-> <<t>>]>>
       [] p = "orderby-ref" -> <<from, Sel(<<t>>), [m |-> "orderby", terms |-> <<t>>, dir |-> ""]>>
+      [] p = "operand-count-distinct" -> <<from, Sel(<<Outer([k |-> "call", f |-> "COUNT", args |-> <<t>>, dist |-> TRUE])>>)>>
+      [] p = "operand-sum-distinct" -> <<from, Sel(<<Outer([k |-> "call", f |-> "SUM", args |-> <<t>>, dist |-> TRUE])>>)>>
+      [] p = "operand-window" -> <<from, Sel(<<Outer([k |-> "win", f |-> "SUM", args |-> <<t>>, part |-> <<Fld("T1", "c")>>, ord |-> <<>>])>>)>>
+      [] p = "orderby-then-select" -> <<from, [m |-> "orderby", terms |-> <<t>>, dir |-> ""], Sel(<<t>>)>>
+      [] p = "groupby-then-select" -> <<from, [m |-> "groupby", terms |-> <<t>>], Sel(<<t>>)>>
+      [] p = "star-after-alias" -> <<from, Sel(<<t>>), [m |-> "groupby", terms |-> <<t>>], [m |-> "orderby", terms |-> <<t>>, dir |-> ""], [m |-> "selectstr", name |-> "*"]>>
+      [] p = "late-alias" -> <<from, plain, [m |-> "orderby", terms |-> <<Fld("T1", "a")>>, dir |-> ""], [m |-> "groupby", terms |-> <<Fld("T1", "a")>>],
+                               Sel(<<t>>), [m |-> "groupby", terms |-> <<t>>], [m |-> "orderby", terms |-> <<t>>, dir |-> ""]>>
       [] p = "groupby-other-alias" -> <<from, Sel(<<WithAl(Fld("T1", "a"), "aly")>>), [m |-> "groupby", terms |-> <<t>>], [m |-> "orderby", terms |-> <<t>>, dir |-> ""]>>
       [] OTHER -> <<from, Sel(<<t>>)>>
 
